@@ -221,13 +221,19 @@ def run(run):
             it = src_fn(run, "fragment/line.rs", "can_merge", impl_self="Line")
             if it is not None:
                 txt = []
-                def conj(e):
+                lets = {}
+                for s_ in it["body"]["stmts"]:
+                    if s_["k"] == "let" and s_["pat"].get("name") and "init" in s_ and not s_["pat"].get("mut"):
+                        lets[s_["pat"]["name"]] = s_["init"]
+                def conj(e, depth=0):
                     if e.get("k") == "binary" and e["op"] == "&&":
-                        conj(e["l"]); conj(e["r"])
+                        conj(e["l"], depth); conj(e["r"], depth)
+                    elif e.get("k") == "path" and e["path"] in lets and depth < 4:
+                        conj(lets[e["path"]], depth + 1)   # immutable let-bound boolean: expand
                     else:
                         txt.append(e)
-                st = it["body"]["stmts"]
-                if len(st) == 1 and st[0]["k"] == "expr_stmt":
+                st = [x for x in it["body"]["stmts"] if x["k"] == "expr_stmt" and not x["semi"]]
+                if len(st) == 1:
                     conj(st[0]["expr"])
                 names = []
                 for t in txt:
